@@ -25,3 +25,7 @@ check("C18", "exploration",
       "Metamorphic equality of normalised traces (events, delivered plaintext, emitted bytes) between a flight-at-a-time reference and ~900 (quick) re-runs per seed of each endpoint alone under different partitions of the same input stream and partial-send patterns; all runs fork from one parent snapshot with pinned entropy and virtual clock, causality preserved.",
       "Application actions are pinned to fixed positions of the input stream; input presented after the session failed is C15's subject; DTLS out of scope.",
       "metamorphic trace-equality monitor over fork-cloned deterministic re-runs, ASan+UBSan build", "3/C18")
+check("C11", "exploration",
+      "By-construction and differential monitor: arbitrary encoded messages are turned into real RSA signatures with libcrypto BN (so every EM variant is a genuine signature), ECDSA/Ed25519/PSS verdicts are compared with an independent range check + libcrypto, sign/verify, encrypt/decrypt and ECDH/DH/X25519 are cross-checked both ways, invalid public values must be refused; ~28k (quick) / 3M (thorough) cases on ASan+UBSan and production builds, every input in an exact-size heap block.",
+      "Trusts OpenSSL 3.0 libcrypto; (r, n-s) malleability and absent-NULL DigestInfo are recorded, not asserted; key sizes limited to those pstm_exptmod supports.",
+      "by-construction oracle + differential monitor vs libcrypto, sanitizer and production builds", "3/C11")
